@@ -16,7 +16,8 @@ are evaluated end to end on the model by the kernel (`grammar_samples_detected`)
 **Proved for the enumerated grammar in every letter case (`grammar_detected_any_case`):** for each of
 the 49 skeletons × 6 context prefixes, with every one of the 12 tails (words separated by one space) and
 with every one of the 13 separators (no tail) — 7 350 lower-case members, each evaluated end to end on
-the model by the kernel (`Proofs/GrammarEval`, 49 modules) — *every* re-assignment of ASCII letter case
+the model by the kernel (`Proofs/GrammarEval`, 49 modules; plus 5 parenthesis-closing skeletons × 6 prefixes × 25 and
+the 74-entry comment-truncation table, `paren_and_truncation_detected`) — *every* re-assignment of ASCII letter case
 of the member is reported as SQLi. The case dimension is closed universally by C10 (`isSQLi` commutes
 with lower-casing outside the exempt positions, and the kernel checks that no member has one), not by
 enumeration. The grammar lists live in `Spec/SqliGrammar.lean` and are compared with the harness's
@@ -84,6 +85,37 @@ theorem grammar_detected_any_case : grammar_detected_any_case_statement := by
     refine memberOK_any_case _ s' (hall _ ?_) hc
     unfold membersOf membersSeps
     exact List.mem_append_right _ (List.mem_flatMap.mpr ⟨p, hp, List.mem_map.mpr ⟨sp, hsp, rfl⟩⟩)
+
+open Spec.SqliGrammar in
+/-- the parenthesis-closing skeletons (`1) or (1=1` …) and the comment-truncation table, any letter case -/
+def paren_and_truncation_statement : Prop :=
+  (∀ sk ∈ parenSkeletons, ∀ p ∈ parenPrefixes,
+    (∀ t ∈ tails, ∀ s', CaseEq (render p sk [32] t) s' → ∃ fp, isSQLi s' = .ok (true, fp)) ∧
+    (∀ sp ∈ seps, ∀ s', CaseEq (render p sk sp []) s' → ∃ fp, isSQLi s' = .ok (true, fp))) ∧
+  (∀ a ∈ truncations, ∀ s', CaseEq a s' → ∃ fp, isSQLi s' = .ok (true, fp))
+
+open Spec.SqliGrammar in
+theorem paren_and_truncation_detected : paren_and_truncation_statement := by
+  constructor
+  · intro sk hsk p hp
+    obtain ⟨k, hk, hget⟩ := List.mem_iff_getElem.mp hsk
+    have hk' : k < 5 := by rw [← paren_skeletons_length]; exact hk
+    have hskel : pskel k = sk := by
+      unfold pskel
+      rw [List.getElem?_eq_getElem hk, hget]; rfl
+    have hall := all_paren_skeletons_ok k hk'
+    rw [hskel, List.all_eq_true] at hall
+    constructor
+    · intro t ht s' hc
+      refine memberOK_any_case _ s' (hall _ ?_) hc
+      unfold membersOfParen
+      exact List.mem_append_left _ (List.mem_flatMap.mpr ⟨p, hp, List.mem_map.mpr ⟨t, ht, rfl⟩⟩)
+    · intro sp hsp s' hc
+      refine memberOK_any_case _ s' (hall _ ?_) hc
+      unfold membersOfParen
+      exact List.mem_append_right _ (List.mem_flatMap.mpr ⟨p, hp, List.mem_map.mpr ⟨sp, hsp, rfl⟩⟩)
+  · intro a ha s' hc
+    exact memberOK_any_case a s' (List.all_eq_true.mp truncations_ok a ha) hc
 
 /-- non-vacuity: `1) UnIoN/**/SeLeCt/**/1,2,3` is a case variant of a member -/
 example : ∃ fp, isSQLi [49,41,32,85,110,73,111,78,47,42,42,47,83,101,76,101,67,116,47,42,42,47,49,44,50,44,51] = .ok (true, fp) := by
